@@ -5,8 +5,17 @@ cd "$(dirname "$0")"
 export GOFLAGS=-mod=mod GOPROXY=off
 mkdir -p harness/bin
 cp /repo/go.sum harness/go.sum
-(cd harness && go build -o bin/facts ./cmd/facts && go build -tags verif -o bin/drive ./cmd/drive)
+(cd harness && go build -o bin/facts ./cmd/facts && for d in cmd/c[0-9]*/; do n=$(basename $d); [ -f ../checks/$(echo $n | tr c C).py ] && go build -tags verif -o bin/$n ./cmd/$n; done; true)
 rm -f lean/Canopy/Gen/*.lean
 ./harness/bin/facts -repo /repo -out "$(pwd)/lean/Canopy/Gen"
-(cd lean && lake build Canopy driver)
+# build the Lean modules and drivers of every claimed property (checks/Cxx.py)
+TARGETS=$(python3 -c "
+import sys; sys.path.insert(0, '.')
+from checks import PROPS
+t = []
+for p, c in sorted(PROPS.items()):
+    t += c['lean_modules']
+    if c.get('driver'): t.append('driver_' + p)
+print(' '.join(dict.fromkeys(t)))")
+(cd lean && lake build $TARGETS)
 echo "setup ok"
